@@ -331,7 +331,7 @@ def fam_requirements(quick):
                 sat = fltl(f, rows)
                 for mode in ("top-after", "top-after-s", "top-when", "top-compose", "top-max", "sub-after", "sub-after-s", "sub-for", "sub-until", "sub-compose"):
                     hsh = int(common.sha(json.dumps([toks, rows, mode]))[:6], 16)
-                    if quick and na > 1 and L == 3 and hsh % 4:
+                    if quick and ((na > 1 and L == 3) or (L == 3 and hsh % 2) or (mode.endswith("-s") and hsh % 3)):
                         continue
                     ts = 0.5 if mode.endswith("-s") else 1
                     p = cp.empty_program(1)
@@ -414,6 +414,10 @@ def compare(c, name, p, src, run, obs, mod, fam_expect=None):
                          impl={k: obs.get(k) for k in ("kind", "reason", "time", "traj", "actions", "msg")},
                          model={k: mod.get(k) for k in ("kind", "time", "traj", "actions")},
                          impl_events=obs["events"], model_events=mod["events"]))
+    if obs.get("stale_behavior_after_gc"):
+        c.violation("stale-veneer-after-gc", "after this simulation, collecting its abandoned generators set veneer.currentBehavior to a stale behavior "
+                    "(Behavior._invokeInner holds `with veneer.executeInBehavior(sub)` across yields; its exit runs when the generator is finalized)",
+                    dict(case=case, stale_behavior_after_gc=True, impl_kind=obs["kind"]))
     for kind, msg, extra in oracle(p, run, obs):
         ok = False
         c.violation(kind, msg, dict(case=case, impl={k: obs.get(k) for k in ("kind", "reason", "time", "traj", "actions")},
@@ -468,7 +472,7 @@ def main():
             cases.append((name, p, cp.program_src(p), dict(tab=tab, perms=[], max_steps=H, timestep=ts), (exp, end)))
         for name, p, tab, ts, H, expect in fam_requirements(quick):
             cases.append((name, p, cp.program_src(p), dict(tab=tab, perms=[], max_steps=H, timestep=ts), expect))
-        nprog = 180 if quick else 6000
+        nprog = 160 if quick else 6000
         for n in range(nprog):
             g = cp.Gen(random.Random(rng.getrandbits(64)))
             p, ts = g.program()
